@@ -9,7 +9,15 @@ impl Status {
     pub fn ok() -> (r: Status) ensures r.code == StatusCode::OK { unimplemented!() }
     pub fn code(&self) -> (r: StatusCode) ensures r == self.code { self.code }
 }
+impl vstd::std_specs::convert::FromSpecImpl<StatusCode> for Status {
+    open spec fn obeys_from_spec() -> bool { true }
+    open spec fn from_spec(c: StatusCode) -> Status { Status { code: c } }
+}
 impl core::convert::From<StatusCode> for Status {
-    fn from(code: StatusCode) -> (r: Status) ensures r.code == code { Status { code } }
+    fn from(code: StatusCode) -> (r: Status) { Status { code } }
+}
+impl vstd::std_specs::cmp::PartialEqSpecImpl for StatusCode {
+    open spec fn obeys_eq_spec() -> bool { true }
+    open spec fn eq_spec(&self, o: &StatusCode) -> bool { *self == *o }
 }
 // ===== end =====
